@@ -630,7 +630,7 @@ func run(cfg *Config, opt core.Options, res *core.Result) *sim {
 	if opt.Property == "C14" {
 		s.checkBuiltinConstants()
 	}
-	if opt.Property == "C12" || opt.Property == "C04" {
+	if opt.Property == "C12" || opt.Property == "C04" || opt.Property == "C05" {
 		s.gnode = &gossipNode{s: s, known: map[common.Root]bool{w.genesis.root: true}, seen: map[string]bool{}, advanced: map[string]*stateBox{}, head: w.genesis}
 	}
 	if opt.Property == "C13" {
